@@ -18,5 +18,5 @@ Print Assumptions C08_generate_epsilon.
 (* the CYK table on a grammar in Chomsky normal form, non-empty words *)
 Theorem C08_cyk : forall (X : Type) (E : EqDec X) (G : cfg X) (w : list N),
   is_normal_form G = true -> w <> nil -> (cyk G w = true <-> LangG G w).
-Proof. exact (@cyk_spec). Qed.
+Proof. intros X E G w Hn. exact (cyk_spec G Hn w). Qed.
 Print Assumptions C08_cyk.
